@@ -371,6 +371,10 @@ pub(crate) fn extract_code_block_start(line: &str) -> Option<(&str, &str, &str)>
             if index < 3 {
                 return None;
             }
+            // the info string of a fence holds no backtick: this is an inline code span
+            if line[index..].contains('`') {
+                return None;
+            }
             language_start = Some(index);
         }
     }
